@@ -770,7 +770,9 @@ Eval(node, ctx, f, st) ==
                          K == SortKeys(node.terms, items, 1, <<>>, [j \in 1..Len(node.terms) |-> ""], <<f, A.st>>)
                      IN  IF K.x # "ok" THEN K
                          ELSE LET idx == SortIdxUpTo(Len(items), node.terms, K.ks)
-                              IN  Ok(SeqValue([i \in 1..Len(idx) |-> items[idx[i]]], FALSE), K.st))
+                              \* sorting no items: an empty array or no value - open
+                              IN  IF items = <<>> /\ K.st.md.sort_empty_arr THEN Ok(Arr(<<>>), K.st)
+                                  ELSE Ok(SeqValue([i \in 1..Len(idx) |-> items[idx[i]]], FALSE), K.st))
       [] node.k = "Lambda" ->
            Ok([t |-> "fn", k |-> "lambda", ps |-> node.params, body |-> node.body, f |-> f, c |-> ctx,
                typed |-> FALSE, sig |-> <<>>], st)
